@@ -72,6 +72,13 @@ def run(F, R):
     except Unsupported as e:
         R.undecided_("R20.3", "merge:abstract-evaluation", mg.where(), "merge uses a form the abstract evaluator does not model (%s)" % e)
 
+    R.rule("R20.5", "schema lookups in CacheControlCalculate are keyed by the field name, never by response_key()/alias")
+    from common import lookups_keyed_by_response_key
+    vis = [b for b in F.find(r"async_graphql::validation::visitors::cache_control::") if "::tests::" not in b.defp]
+    badl = lookups_keyed_by_response_key(F, vis)
+    R.check(bool(vis) and not badl, "R20.5", "cache_control:lookup-by-field-name", badl[0].where() if badl else cc.where(), "lookups use the field name",
+            "a field's cache hint is looked up by response key / alias: an aliased field's (possibly private / shorter) policy is skipped")
+
     R.rule("R20.4", "all execute paths attach the validation result's policy to the response (Response::cache_control), and "
                     "BatchResponse::cache_control folds with merge")
     paths = {
